@@ -107,7 +107,13 @@ def r07_2(ctx):
         vars_ = [ast.unparse(l[0]) for l in loops]
         ok = kinds[:2] == ["N", "M"] and len(loops) == 3 and "xr[%s][%s].shape[1]" % (vars_[0], vars_[1]) in ast.unparse(loops[2][1]) and [ast.unparse(a) for a in ev[0].args] == ["stage", h.params[2]] + vars_
     ctx.check(ok, "_grid_integrator_roots walks (k, l, j) in order", detail="root enumeration", expected="k, l, j nested loops", found="; ".join(ast.unparse(c) for c in ev), fi=h)
-    te = [c for c in walk_no_nested(h.node) if is_call_to(c, "extend", "tr")]
+    # the list of root times is whatever the returned time expression is built from
+    rts = [r for r in walk_no_nested(h.node) if isinstance(r, ast.Return) and isinstance(r.value, ast.Tuple) and len(r.value.elts) == 2]
+    tl = None
+    if rts:
+        names = [x.id for x in ast.walk(rts[0].value.elts[0]) if isinstance(x, ast.Name) and any(d.kind == "assign" and isinstance(d.value, ast.List) for d in sch.defs.get(x.id, []))]
+        tl = names[0] if names else None
+    te = [c for c in walk_no_nested(h.node) if tl is not None and is_call_to(c, "extend", tl)]
     ok = len(te) == 1
     if ok:
         loops = sch.enclosing_loops(te[0])
